@@ -292,6 +292,29 @@ def run_nibsrc(chk):
                 if i != m:
                     fails.append(corr("nibsrc:" + name, "%s(%d, %d): the source returns %s, its translation %s" % (name, t, n, i, m)))
                     return fails
+    # the integer writers and the list header: values around every byte / field boundary and integer literals of the encoder's source +-1
+    from lib.probes import harvest_ints
+    vals = set([0, 1, 2, 15, 16, 127, 128, 255, 256, 257, 4095, 4096, 65535, 65536, 65537, 0xABCDE, 0xFFFFF, 0x100000, 0x100001, 0xFFFFFF, 0x1000000,
+                0x7FFFFFFF, 0x80000000, 0x80000001, 0xFFFFFFFF, 0x123456789])
+    for v in harvest_ints(["yowsup/layers/coder/encoder.py"]):
+        vals.update(x for x in (v - 1, v, v + 1) if 0 <= x < 1 << 40)
+    for k in range(200):
+        vals.add(chk.rng.randrange(1 << chk.rng.choice([8, 12, 16, 20, 24, 31, 33])))
+
+    def wrote(fn, v):
+        buf = []
+        try:
+            fn(v, buf)
+        except Exception:
+            return "raised"
+        return "wrote " + ",".join(str(b) for b in buf)
+    for v in sorted(vals):
+        for name in ("writeInt8", "writeInt16", "writeInt20", "writeInt24", "writeInt31", "writeListStart", "writeToken"):
+            i, m = wrote(getattr(enc, name), v), chk.driver.ask("coder nibsrc w %s %d" % (name, v))
+            chk.hit("nibsrc:" + name, i.split()[0])
+            if i != m:
+                fails.append(corr("nibsrc:" + name, "%s(%d): the source appends %s, its translation %s" % (name, v, i, m)))
+                return fails
     # the property on the real functions: what is packed unpacks to the same character
     for t in (251, 255):
         for c in range(0, 256):
